@@ -90,10 +90,10 @@ def fusion_table(code):
 
 
 def worker(ck: Check, job):
-    code, part = job
+    code, part = job[0], job[1]
     L = LANGS[code]
     if part == 'pairs':
-        pairs(ck, code, L)
+        pairs(ck, code, L, job[2] if len(job) > 2 else None)
     else:
         dictation(ck, code, L)
 
@@ -103,7 +103,7 @@ def two_digit(prefix):
     return d, d.domain('low2')
 
 
-def pairs(ck, code, L):
+def pairs(ck, code, L, a_tens=None):
     R = fusion_table(code)
     da, ca = two_digit('a')
     db, cb = two_digit('b')
@@ -113,6 +113,8 @@ def pairs(ck, code, L):
     sa = L.cardinal_slots(da, fa_)
     sb = L.cardinal_slots(db, fb_)
     assm = ca + cb + list(L.side_constraints(da, fa_)) + list(L.side_constraints(db, fb_))
+    if a_tens is not None:
+        assm.append(da.D[1] == a_tens)       # the pairs of this language are split over parallel jobs by the tens digit of a
     # the conjunction joiner only between two non-zero numbers
     assm.append(z3.Implies(use_conj, z3.And(z3.Not(da.is_zero()), z3.Not(db.is_zero()))))
     if ck.tier == 'quick':
@@ -208,11 +210,13 @@ def pairs(ck, code, L):
                                                    z3.And(t == 9, z3.Not(fb_['non']))))
             return z3.Not(led)
         return None
-    ck.prove_none('%s:pairs' % code, assm, bad, on_cex, block)
-    ck.cover('%s:pairs:kept-apart' % code, assm + [z3.Or(*[z3.And(pc(r), B64(r.ret.len) == 2) for r in res])],
+    tag = '%s:pairs' % code if a_tens is None else '%s:pairs:a=%dx' % (code, a_tens)
+    ck.prove_none(tag, assm, bad, on_cex, block)
+    ck.cover(tag + ':kept-apart', assm + [z3.Or(*[z3.And(pc(r), B64(r.ret.len) == 2) for r in res])],
              lambda m: {'lang': code, 'tokens': [t.text for t in concrete_tokens(tslots, m)]})
-    ck.cover('%s:pairs:fused' % code, assm + [z3.Or(*[z3.And(pc(r), B64(r.ret.len) == 1) for r in res]), z3.Not(da.is_zero())],
-             lambda m: {'lang': code, 'tokens': [t.text for t in concrete_tokens(tslots, m)]})
+    if not a_tens:
+        ck.cover(tag + ':fused', assm + [z3.Or(*[z3.And(pc(r), B64(r.ret.len) == 1) for r in res]), z3.Not(da.is_zero())],
+                 lambda m: {'lang': code, 'tokens': [t.text for t in concrete_tokens(tslots, m)]})
     ck.per_lang[code] = {'fusion_triples': len(R)}
 
 
@@ -298,7 +302,13 @@ def run(ck: Check):
     only = os.environ.get('VERIF_LANGS')
     if only:
         langs = [c for c in langs if c in only.split(',')]
-    jobs = [(c, p) for c in langs for p in ('pairs', 'dictation')]
+    jobs = []
+    for c in langs:
+        if c == 'de':
+            jobs += [(c, 'pairs', t) for t in range(10)]      # compound words: 100 alternatives per slot, split by tens of a
+        else:
+            jobs.append((c, 'pairs'))
+    jobs += [(c, 'dictation') for c in langs]
     run_parallel(ck, worker, jobs)
     ck.bounds['pairs'] = 'a, b in [0,99], joiner in {space, conjunction}'
     ck.outside += ['numbers >= 100 in the pair', 'dictated sequences longer than the bound', 'joiners other than a space or the conjunction']
